@@ -194,6 +194,51 @@ func c20Dispatch(idx int, seed uint64) {
 		return
 	}
 	defer s.closeAll()
+	// Every third Subscribe / Unsubscribe is issued under a forced interleaving (delays only, at the
+	// library's yield point right after the request was written): the calling goroutine is held there
+	// until the client's processor has handled the acknowledgement. A caller preempted at that spot
+	// is an ordinary schedule; the request completes all the same.
+	var sink *eventSink
+	if !raceEnabled {
+		sink = newSink()
+		defer curSink.Store(nil)
+	}
+	defer svcYield.Store(nil)
+	// hold arms the yield point; the returned function waits for the acknowledgement to be handled
+	// and lets the caller go on
+	hold := func(point string, ackType byte) (armed bool, afterAck func() bool) {
+		if sink == nil || r.Intn(3) != 0 {
+			svcYield.Store(nil)
+			return false, func() bool { return true }
+		}
+		parked, release := make(chan struct{}, 1), make(chan struct{})
+		h := func(pt string) {
+			if pt == point {
+				select {
+				case parked <- struct{}{}:
+					<-release
+				default:
+				}
+			}
+		}
+		svcYield.Store(&h)
+		before := sink.countArg("proc.handled", int(ackType))
+		return true, func() bool {
+			defer close(release)
+			select {
+			case <-parked:
+			case <-time.After(5 * time.Second):
+				return false
+			}
+			for dl := time.Now().Add(5 * time.Second); time.Now().Before(dl); time.Sleep(200 * time.Microsecond) {
+				if sink.countArg("proc.handled", int(ackType)) > before {
+					out.Count("c20.ack_handled_before_call_returned", 1)
+					return true
+				}
+			}
+			return false
+		}
+	}
 	log := &cbLog{got: map[int][]delivered{}}
 	type reqT struct {
 		filters []string
@@ -242,10 +287,17 @@ func c20Dispatch(idx int, seed uint64) {
 			}
 			done := make(chan error, 4)
 			ops = append(ops, fmt.Sprintf("Subscribe#%d %q", ri, fs))
-			if err := s.cln.Subscribe(m, func(msg, ack message.Message, err error) error { done <- err; return nil },
-				func(pm *message.PublishMessage) error { log.add(ri, pm); return nil }); err != nil {
-				fail("c20:subscribe-call", err.Error())
-				return
+			armed, afterAck := hold("subscribe.afterwrite", rc.SUBACK)
+			callErr := make(chan error, 1)
+			go func() {
+				callErr <- s.cln.Subscribe(m, func(msg, ack message.Message, err error) error { done <- err; return nil },
+					func(pm *message.PublishMessage) error { log.add(ri, pm); return nil })
+			}()
+			if !armed {
+				if err := <-callErr; err != nil {
+					fail("c20:subscribe-call", err.Error())
+					return
+				}
 			}
 			// the peer answers
 			var sub *rc.Packet
@@ -270,10 +322,22 @@ func c20Dispatch(idx int, seed uint64) {
 				}
 			}
 			s.srv.SendPacket(&rc.Packet{Type: rc.SUBACK, ID: sub.ID, Codes: codes})
+			how := ""
+			if armed {
+				how = " (the SUBACK was handled while the calling goroutine was still inside Subscribe, right after writing the request)"
+				if !afterAck() {
+					out.Inconclusive("c20: forced interleaving not reached", params)
+					return
+				}
+				if err := <-callErr; err != nil {
+					fail("c20:subscribe-call", err.Error())
+					return
+				}
+			}
 			select {
 			case <-done:
 			case <-time.After(5 * time.Second):
-				fail("c20:subscribe-completion", "Subscribe completion callback did not fire after the SUBACK")
+				fail("c20:subscribe-completion", "Subscribe completion callback did not fire after the SUBACK"+how)
 				return
 			}
 			for i, f := range fs {
@@ -298,9 +362,16 @@ func c20Dispatch(idx int, seed uint64) {
 			m.AddTopic([]byte(f))
 			done := make(chan error, 4)
 			ops = append(ops, fmt.Sprintf("Unsubscribe %q", f))
-			if err := s.cln.Unsubscribe(m, func(msg, ack message.Message, err error) error { done <- err; return nil }); err != nil {
-				fail("c20:unsubscribe-call", err.Error())
-				return
+			armed, afterAck := hold("unsubscribe.afterwrite", rc.UNSUBACK)
+			callErr := make(chan error, 1)
+			go func() {
+				callErr <- s.cln.Unsubscribe(m, func(msg, ack message.Message, err error) error { done <- err; return nil })
+			}()
+			if !armed {
+				if err := <-callErr; err != nil {
+					fail("c20:unsubscribe-call", err.Error())
+					return
+				}
 			}
 			var un *rc.Packet
 			if err := s.srv.WaitFor(func(l []rawclient.Event, closed bool) bool {
@@ -317,10 +388,22 @@ func c20Dispatch(idx int, seed uint64) {
 			}
 			markID(un.ID)
 			s.srv.SendPacket(&rc.Packet{Type: rc.UNSUBACK, ID: un.ID})
+			how := ""
+			if armed {
+				how = " (the UNSUBACK was handled while the calling goroutine was still inside Unsubscribe, right after writing the request)"
+				if !afterAck() {
+					out.Inconclusive("c20: forced interleaving not reached", params)
+					return
+				}
+				if err := <-callErr; err != nil {
+					fail("c20:unsubscribe-call", err.Error())
+					return
+				}
+			}
 			select {
 			case <-done:
 			case <-time.After(5 * time.Second):
-				fail("c20:unsubscribe-completion", "Unsubscribe completion callback did not fire after the UNSUBACK")
+				fail("c20:unsubscribe-completion", "Unsubscribe completion callback did not fire after the UNSUBACK"+how)
 				return
 			}
 			for _, rq := range reqs {
